@@ -18,6 +18,8 @@ StepFarBin(e) ==
   /\ e.ev = "farbin"
   /\ \A i \in 1..Len(e.items) :
        LET it == e.items[i] IN Report(e.case, FarFails(it[1], it[2], it[3], it[4], it[5]), it)
+\* a Rectangle method panicked: the property promises a result for every pair of representable rectangles
+StepPanic(e) == e.ev = "panic" /\ Report(e.case, {"library_call_panicked"}, [msg |-> e.msg, loc |-> e.loc])
 StepUn(e) ==
   /\ e.ev = "un"
   /\ Report(e.case, UnFails(e.r, e), [r |-> e.r])
@@ -33,7 +35,7 @@ StepUn(e) ==
        "rectangle_method_transcription", [r |-> e.r])
 
 Next == /\ l <= NRec
-        /\ LET e == Rec[l] IN StepCase(e) \/ StepBin(e) \/ StepFarBin(e) \/ StepUn(e)
+        /\ LET e == Rec[l] IN StepCase(e) \/ StepBin(e) \/ StepFarBin(e) \/ StepUn(e) \/ StepPanic(e)
         /\ l' = l + 1
 Spec == Init /\ [][Next]_l
 
